@@ -372,6 +372,13 @@ let run_case (lines : string list) =
            end
          done;
          pr "%s\n" (Buffer.contents b)
+       | "mk.selfat" ->
+         let k = tk_int tk in let j = tk_int tk in let at = tk_int tk in
+         if j >= k then pr "throw out_of_range\n" else begin
+           let n = max k (at + 1) in
+           let cell dflt i = if i = at then string_of_int (j + 1) else if i < k then string_of_int (i + 1) else dflt in
+           let l dflt = String.concat "" (List.init n (fun i -> " " ^ cell dflt i)) in
+           pr "ok%s |%s |%s\n" (l "0") (l "0") (l "-") end
        | "mk.self" ->
          let k = tk_int tk in let j = tk_int tk in let _how = next tk in
          if j >= k then pr "throw out_of_range\n" else begin
